@@ -20,6 +20,7 @@ META = {
 
 def run(s):
     K.suite_workload(s)
+    K.pair_histories(s)
     q = s.tier == 'quick'
     idx = 0
     for n in range(1, 5 if q else 6):
